@@ -7,9 +7,11 @@ VARIABLES l, viol, drift
 tvars == <<row, pc, wire, hargs, hret, reply, cret, l, viol, drift>>
 IsPair(e) == "kind" \in DOMAIN e.row          \* rows about several calls at once (pair, burst): verdict only, no stepwise model
 IsBurst(e) == IsPair(e) /\ e.row.kind = "burst"
+IsPlain(e) == IsPair(e) /\ e.row.kind = "plain"
 RowOf(e) == IF IsPair(e) THEN [n |-> 0, ctx |-> FALSE, raw |-> FALSE, ret |-> "val", outcome |-> "value", tr |-> e.row.tr, fmt |-> e.row.fmt] ELSE
             [n |-> e.row.n, ctx |-> e.row.ctx, raw |-> e.row.raw, ret |-> e.row.ret, outcome |-> e.row.outcome, tr |-> e.row.tr, fmt |-> e.row.fmt]
-ObsOf(e) == IF IsBurst(e) THEN [ran |-> e.obs.ran, own |-> e.obs.own] ELSE
+ObsOf(e) == IF IsPlain(e) THEN [ok |-> e.obs.ok] ELSE
+            IF IsBurst(e) THEN [ran |-> e.obs.ran, own |-> e.obs.own] ELSE
             IF IsPair(e) THEN [aran |-> e.obs.aran, bran |-> e.obs.bran, ares |-> e.obs.ares, bres |-> e.obs.bres] ELSE
             [ran |-> e.obs.ran, argsok |-> e.obs.argsok, nargs |-> e.obs.nargs, err |-> e.obs.err, res |-> e.obs.res]
 Load(j) == row' = RowOf(Trace[j]) /\ pc' = "client" /\ wire' = None /\ hargs' = <<>> /\ hret' = None /\ reply' = None /\ cret' = None
@@ -19,7 +21,7 @@ TInit == /\ l = 1 /\ viol = <<>> /\ drift = <<>>
 TStep == /\ pc \notin {"done", "end"} /\ Next /\ UNCHANGED <<l, viol, drift>>
 TCheck == /\ pc = "done"
           /\ LET o == ObsOf(Trace[l]) IN
-             /\ viol'  = IF (IF IsBurst(Trace[l]) THEN P_C01_Burst(Trace[l].row, o) ELSE IF IsPair(Trace[l]) THEN P_C01_Pair(Trace[l].row, o) ELSE P_C01(row, o)) THEN viol ELSE Append(viol, l)
+             /\ viol'  = IF (IF IsPlain(Trace[l]) THEN P_C01_Plain(Trace[l].row, o) ELSE IF IsBurst(Trace[l]) THEN P_C01_Burst(Trace[l].row, o) ELSE IF IsPair(Trace[l]) THEN P_C01_Pair(Trace[l].row, o) ELSE P_C01(row, o)) THEN viol ELSE Append(viol, l)
              /\ drift' = IF IsPair(Trace[l]) \/ o = ModelObs THEN drift ELSE Append(drift, l)
           /\ l' = l + 1
           /\ IF l + 1 <= Len(Trace) THEN Load(l + 1) ELSE pc' = "end" /\ UNCHANGED <<row, wire, hargs, hret, reply, cret>>
